@@ -168,3 +168,43 @@ func VerifH_C05_amplify_ranges() {
 	out := run.limited(cpu, mem, fn, args...)
 	vhCheckLimited(out, cpu, mem)
 }
+
+// a coroutine running inside a CPU-limited context hits the limit while it
+// holds a to-be-closed variable: the kill propagates to the resumer, the
+// context is reported killed with usage below the limit, and the __close
+// handler does not get to run Lua code past the limit
+func VerifH_C05_kill_in_coroutine_is_not_intercepted_by_close() {
+	run := vhNewRun()
+	n := nondetInt64("n")
+	clos, err := run.r.CompileAndLoadLuaChunk("kill", []byte(`
+local n = ...
+local co = coroutine.create(function()
+  local g <close> = setmetatable({}, {__close = function()
+    emit("handler-start")
+    for i = 1, 200 do n = n + 1 end
+    emit("handler-done")
+  end})
+  while true do n = n + 1 end
+end)
+emit("resume", coroutine.resume(co))
+emit("after-resume")
+`), rt.TableValue(run.r.GlobalEnv()))
+	verifAssert(err == nil, "chunk-compiles")
+	if err != nil {
+		return
+	}
+	const limit = 150
+	term := rt.NewTerminationWith(nil, 0, true)
+	ctx, _ := run.t.CallContext(rt.RuntimeContextDef{HardLimits: rt.RuntimeResources{Cpu: limit}}, func() error {
+		return rt.Call(run.t, rt.FunctionValue(clos), []rt.Value{vhInt(n)}, term)
+	})
+	verifAssert(ctx != nil && ctx.Status() == rt.StatusKilled, "context-killed")
+	verifAssert(ctx != nil && ctx.UsedResources().Cpu < limit, "used-never-reaches-the-limit")
+	for _, v := range run.trace {
+		if s, ok := v.TryString(); ok {
+			verifAssert(s != "handler-done", "close-handler-does-not-complete-past-the-limit")
+			verifAssert(s != "after-resume", "resumer-does-not-run-on-after-the-kill")
+		}
+	}
+	verifAssert(verifLiveGoroutines() == 0, "no-goroutine-left-behind")
+}
